@@ -38,11 +38,16 @@ RULE = ("1-5 generated datasources per archive, each returning one provider or a
         "elements whose content is empty (refused at persist time); content lines = any Unicode text "
         "without the characters str.splitlines splits on and without surrogates, whitespace-only and "
         "whitespace-edged lines, 0-3 empty lines at either edge, lines of up to 131073 characters, "
-        "with/without final newline; evaluated by dr.run with Hydration.make_persister as observer; "
+        "with/without final newline; the host-side source of the kinds whose provider cuts it into lines "
+        "itself (text file, command / container output, a datasource's string) ends its lines with LF "
+        "(~55 % of the elements), CRLF, a lone CR, a mixture of the three, and - command kinds and "
+        "datasource strings - any other character str.splitlines cuts at; evaluated by dr.run with "
+        "Hydration.make_persister as observer; "
         "then per metadata entry one of {none, delete, truncate at offset, non-JSON bytes, unknown "
         "component name, valid JSON of wrong shape, referenced data file deleted, entry replaced by a "
         "directory / dangling symlink}; loaded by Hydration.hydrate or hydration.initialize_broker. "
-        "Non-trivial: some persisted element has non-ASCII content or an empty line at an edge, or "
+        "Non-trivial: some persisted element has non-ASCII content, an empty line at an edge or a "
+        "source with a line terminator other than LF, or "
         "(fault part) at least one damaged and one intact entry that carries results.")
 ASSUMPTIONS = [
     "the executables /bin/echo, /bin/ls, /bin/cat, /usr/bin/env and cp exist (providers validate "
@@ -54,8 +59,11 @@ ASSUMPTIONS = [
     "json, os, shlex, glob of the standard library; a POSIX file system below tempfile.gettempdir()",
 ]
 EXCLUDED = [
-    "lines containing a character str.splitlines splits on (\\n \\r \\x0b \\x0c \\x1c-\\x1e \\x85 "
-    "\\u2028 \\u2029) and lone surrogates - outside 'Unicode text without line-break characters'",
+    "a line-break character (anything str.splitlines splits on: \\n \\r \\x0b \\x0c \\x1c-\\x1e \\x85 "
+    "\\u2028 \\u2029) *inside* a line, i.e. in a line a datasource hands over in a list, and in a "
+    "collected file any of them other than the newline conventions LF / CRLF / CR (the file reader keeps "
+    "those inside the line); lone surrogates - outside 'Unicode text without line-break characters'. "
+    "Between the lines of a source that the provider cuts up itself they are generated (round 4)",
     "the return code rc (serializers store the return value of write(), always None; not among the "
     "attributes the statement lists) and cmd/args of ContainerFileProvider (models a file)",
     "a cleaner attached to the providers (C08/C10), filters on the generated datasources (C07), "
@@ -71,6 +79,12 @@ LINEBREAKS = u"\n\r\x0b\x0c\x1c\x1d\x1e\x85\u2028\u2029"
 KINDS = ["text", "raw", "ds_list", "ds_str", "cmd", "ccmd", "cfile"]
 CMD_KINDS = ("cmd", "ccmd")
 CONTAINER_KINDS = ("ccmd", "cfile")
+# kinds whose provider cuts a host-side text into lines itself (a file read in text mode, a command's
+# output split by shell_out, a datasource returning one string); FILE_SPLIT: read through open()
+SPLITTING_KINDS = ("text", "ds_str", "cmd", "ccmd", "cfile")
+FILE_SPLIT_KINDS = ("text",)
+NEWLINES = [u"\n", u"\r\n", u"\r"]                       # the three newline conventions (universal newlines)
+OTHER_SEPS = [u"\x0b", u"\x0c", u"\x1c", u"\x1d", u"\x1e", u"\x85", u"\u2028", u"\u2029"]
 DIRS = ["etc", "var/log", "etc/sysconfig/network-scripts", "a b", u"ünï/日本", "x.d",
         "insights_datasources", "insights_commands", "proc/1", "data", "meta_data"]
 NAMES = ["hosts", "messages", "conf.d.txt", "with space", u"日本語", "ifcfg-eth0", "a,b;c", "UPPER",
@@ -100,8 +114,30 @@ def expand_line(l):
     return l
 
 
-def render(lines, eol):
-    return u"\n".join(expand_line(l) for l in lines) + (u"\n" if eol else u"")
+def render(lines, eol, seps=None):
+    """the text the host holds: the lines, each followed by the next line terminator of the cycle
+    `seps` (default LF); the terminator after the last line only when `eol`"""
+    seps = seps or [u"\n"]
+    out = []
+    for i, l in enumerate(lines):
+        out.append(expand_line(l))
+        if i < len(lines) - 1 or eol:
+            out.append(seps[i % len(seps)])
+    if not lines and eol:
+        out.append(seps[0])
+    return u"".join(out)
+
+
+def terminator_classes(text):
+    """which line-terminator conventions other than plain LF occur in a host-side text"""
+    labs = set()
+    if u"\r\n" in text:
+        labs.add("crlf")
+    if u"\r" in text.replace(u"\r\n", u""):
+        labs.add("lone-cr")
+    if any(ch in text for ch in LINEBREAKS if ch not in u"\r\n"):
+        labs.add("other-sep")
+    return labs
 
 
 def eq_upto_trailing_empty(a, b):
@@ -154,6 +190,12 @@ def selftest():
     assert renamed_location("insights_commands", "ls_-l", "d/") == "insights_commands/d/ls_-l"
     assert renamed_location("insights_commands", "ls_-l", None) == "insights_commands/ls_-l"
     assert render(["a", ["xy", 3], ""], True) == "a\nxyxyxy\n\n"
+    assert render([], True) == "\n" and render([], False) == "" and render(["a"], False, ["\r"]) == "a"
+    assert render(["a", "b", "c"], True, ["\r\n"]) == "a\r\nb\r\nc\r\n"
+    assert render(["a", "b", "c", "d"], False, ["\r", "\x0c"]) == "a\rb\x0cc\rd"
+    assert terminator_classes("a\nb\n") == set() and terminator_classes("a\r\nb") == {"crlf"}
+    assert terminator_classes("a\rb\r\n\x85") == {"crlf", "lone-cr", "other-sep"}
+    assert set(NEWLINES + OTHER_SEPS) == set(LINEBREAKS) | {u"\r\n"}
     # the excluded characters are exactly the ones str.splitlines splits on
     splitting = set(c for c in map(chr, range(0x3100)) if len((u"a" + c + u"b").splitlines()) > 1)
     assert splitting == set(LINEBREAKS), sorted(map(ord, splitting ^ set(LINEBREAKS)))
@@ -256,7 +298,11 @@ def _item_plan(ci, ii, it, root):
     if kind == "raw":
         plan["bytes"] = bytes(bytearray(it.get("raw", []))) * it.get("rep", 1)
     else:
-        plan["text"] = render(it.get("lines", []), it.get("eol", False))
+        # the line terminators of the host-side source matter only where the *provider* cuts the source
+        # into lines; a datasource handing over a list of lines has no terminators
+        seps = it.get("seps") if kind in SPLITTING_KINDS else None
+        plan["text"] = render(it.get("lines", []), it.get("eol", False), seps)
+        plan["terms"] = sorted(terminator_classes(plan["text"])) if kind in SPLITTING_KINDS else []
     if kind in ("text", "raw", "ds_list", "ds_str"):
         rel = it["dir"] + "/" + it["name"] + "." + uniq
         plan["rel"] = rel
@@ -589,6 +635,12 @@ def check(case):
                 else:
                     e["lines"] = list(prov.content)
                     labels.update(_content_labels(e["lines"]))
+                    group = {"text": "file", "ds_str": "ds_str"}.get(p["kind"], "command")
+                    if p["kind"] in SPLITTING_KINDS and not p.get("terms"):
+                        labels.add("src:lf-only@" + group)
+                    for t in p.get("terms", []):
+                        labels.add("src:" + t)
+                        labels.add("src:%s@%s" % (t, group))
                 elems.append(e)
             errs = doc.get("errors")
             if not isinstance(errs, list) or len(errs) != n_refused:
@@ -687,7 +739,8 @@ def check(case):
                         raise Violation("%s: loaded lines differ from the persisted lines" % where,
                                         persisted=_clip_lines(e["lines"]), loaded=_clip_lines(content))
                     labs = _content_labels(e["lines"])
-                    if labs & set(["content:non-ascii", "content:leading-empty", "content:trailing-empty"]):
+                    if labs & set(["content:non-ascii", "content:leading-empty", "content:trailing-empty"]) \
+                            or p.get("terms"):
                         nt_content = True
                 if p["kind"] in CMD_KINDS:
                     if g.cmd != orig.cmd:
@@ -754,6 +807,28 @@ def _lines(tier, rich):
                      st.sampled_from([0, 0, 0, 1, 2, 3]))
 
 
+_SEP_STYLES = ["lf"] * 6 + ["crlf", "crlf", "cr", "mix", "any"]
+
+
+@st.composite
+def _seps(draw, kind):
+    """Line terminators of the host-side source (a cycle): mostly plain LF (None), else DOS line ends,
+    old-Mac / progress-bar carriage returns, a mixture of the three newline conventions, and - for the
+    kinds that are cut by str.splitlines (command output, a datasource's string) - any of the other
+    characters it cuts at. A file is only given the newline conventions: its reader keeps the other
+    characters inside the line, which is outside 'no line-break characters inside a line'."""
+    style = draw(st.sampled_from(_SEP_STYLES))
+    if style == "lf":
+        return None
+    if style == "crlf":
+        return [u"\r\n"]
+    if style == "cr":
+        return [u"\r"]
+    if style == "mix" or kind in FILE_SPLIT_KINDS:
+        return draw(st.lists(st.sampled_from(NEWLINES), min_size=1, max_size=3))
+    return draw(st.lists(st.sampled_from(NEWLINES + OTHER_SEPS + [u"\n\r"]), min_size=1, max_size=3))
+
+
 _argval = st.one_of(_plain, _nonascii, st.sampled_from([u"", u"eth0", u"/dev/sda1", u"a b"]))
 _args = st.one_of(st.none(), _argval, st.lists(_argval, min_size=1, max_size=3))
 
@@ -771,6 +846,10 @@ def _item(draw, tier, rich):
     else:
         it["lines"] = draw(_lines(tier, rich))
         it["eol"] = draw(st.booleans())
+        if kind in SPLITTING_KINDS:
+            seps = draw(_seps(kind))
+            if seps:
+                it["seps"] = seps
     if kind in ("text", "raw", "ds_list", "ds_str", "cfile"):
         it["dir"] = draw(st.sampled_from(DIRS))
         it["name"] = draw(st.sampled_from(NAMES))
